@@ -44,6 +44,12 @@ def loop_case(rng):
                     items[k] = "True" if v else "False"
                 elif r < 0.12:
                     items[k] = rng.choice(["%d.0" % v, "%d / 2" % (2 * v), "%de0" % v])
+            if rng.random() < 0.08:
+                # an integer beyond 64 bits among the values: used as a plain argument only (the body below is replaced)
+                k = rng.randrange(n)
+                vals[k] = rng.choice([2 ** 63, 2 ** 64 + 5, -2 ** 63 - 1, 10 ** 20])
+                items[k] = str(vals[k])
+                bigint = True
         elif ty == "float":
             vals = [rng.choice([0.5, 1.25, 2.0, 3.5, 7.0]) for _ in range(n)]
             items = [repr(v) if rng.random() < 0.7 else ("%d" % int(v) if v == int(v) else repr(v)) for v in vals]
@@ -66,6 +72,9 @@ def loop_case(rng):
             hdr = "[%s]" % ", ".join(items)
     nst = rng.randint(1, 4)
     body = []
+    if locals().get("bigint"):
+        body = ["Fock(%s) | 0" % "{x}", "Kgate(k={x}, l=[{x}, 1]) | 1"][: rng.randint(1, 2)]
+        nst = 0
     for _ in range(nst):
         r = rng.random()
         if ty == "int":
